@@ -68,6 +68,7 @@ Proof.
       apply evals_le. intros [s0|[a [spec|]]]; [apply le_refl | |];
         (apply bind_le; [apply IH | intro; apply le_refl]).
     + apply le_refl.
+    + apply le_refl.
     + apply bind_le; [apply IH | intro; apply le_refl].
     + apply bind_le; [apply IH|]. intro va. apply bind_le; [apply IH | intro; apply le_refl].
     + apply bind_le; [apply Args|]. intro vs.
